@@ -80,6 +80,9 @@ class GenRule:
         if kind == 2 and eq is not None:
             kind = 1
         concl_uses = {0: [first], 1: [first, second], 2: [first, second], 3: [first]}[kind]
+        branched = self.idx % 7 == 3 and kind in (0, 1)
+        if branched:
+            concl_uses = [first, first, first, first, second, first, first, second]
         # occurrence counts decide wildcards
         occ = {}
         for ca in cls_atoms:
@@ -160,13 +163,27 @@ class GenRule:
                        1: ["then pb(%s, %s);" % (name[first], name[second])],
                        2: ["then %s = %s;" % (name[first], name[second])],
                        3: ["then n := f(%s)!;" % name[first], "then pa(n);"]}[kind]
+        self.branched = False
+        if branched:
+            # Surface syntax: a branch statement with two blocks followed by a statement after the branch. Each block continues
+            # the premise matched so far; statements after the branch continue from the premise before the branch.
+            self.branched = True
+            lines += ["branch {", "    if pb(%s, %s);" % (name[first], name[first]), "    then pa(%s);" % name[first], "} along {",
+                      "    then pb(%s, %s);" % (name[first], name[second]), "}", "then pc(%s, %s, %s);" % (name[first], name[first], name[second])]
+            self.text = "rule %s {\n    %s\n}\n" % (self.name, "\n    ".join(lines))
+            # statements after the branch are applied at the end of every block, with that block's premise
+            self.stages = (expected_stages(flat_premise + [("pb", [first, first])], eq, 0, first, second)
+                           + expected_stages(flat_premise, eq, 1, first, second)
+                           + expected_stages(flat_premise + [("pb", [first, first])], eq, 4, first, second)
+                           + expected_stages(flat_premise, eq, 4, first, second))
+            return
         lines += concl_lines
         self.text = "rule %s {\n    %s\n}\n" % (self.name, "\n    ".join(lines))
         self.stages = expected_stages(flat_premise, eq, kind, first, second)
 
     def to_json(self):
         return {"name": self.name, "atoms": list(self.atoms), "assignment": list(self.assignment), "concl_kind": self.concl_kind,
-                "with_eq": self.with_eq, "nested": self.nested, "stages": self.stages, "text": self.text}
+                "with_eq": self.with_eq, "nested": self.nested, "branched": self.branched, "stages": self.stages, "text": self.text}
 
 
 class _UF:
@@ -242,6 +259,9 @@ def expected_stages(flat_premise, eq, kind, first, second):
         st(prem, [] if c in prem else [c])
     elif kind == 1:
         c = ("pb", (f1, f2))
+        st(prem, [] if c in prem else [c])
+    elif kind == 4:
+        c = ("pc", (f1, f1, f2))
         st(prem, [] if c in prem else [c])
     elif kind == 2:
         uf2 = _UF()
